@@ -62,9 +62,11 @@ FirstWord(s) == SubSeq(s, 1, WordEnd(s, 1))
 (* Clause 1: one command = one line                                         *)
 
 \* a command as the server received it: ends with CR LF, no other CR or LF inside
+\* (and no NUL: on the Telnet-framed control connection NUL is not data - RFC 854 uses CR NUL for a bare CR -, so
+\* servers cut or reinterpret the line there; the statement names NULs among the bytes a URL must not smuggle in)
 OneLineBytes(b) ==
   /\ Len(b) >= 2 /\ b[Len(b) - 1] = CR /\ b[Len(b)] = LF
-  /\ Count(b, CR) = 1 /\ Count(b, LF) = 1
+  /\ Count(b, CR) = 1 /\ Count(b, LF) = 1 /\ Count(b, 0) = 0
 
 -----------------------------------------------------------------------------
 (* Clause 2: the order of commands is a path of the protocol automaton      *)
